@@ -108,5 +108,25 @@ macro_rules! generic_bitop {
 generic_bitop!(BitAnd::bitand, &);
 generic_bitop!(BitOr::bitor, |);
 generic_bitop!(BitXor::bitxor, ^);
-generic_bitop!(@checked Shl::shl, <<, safe=checked_shl);
+/// `x << n` as an exact operation. `checked_shl` only refuses a shift amount that is out of
+/// range; bits pushed out of the value (or into its sign) are lost silently, so the result is
+/// shifted back and compared with the operand.
+trait ExactShl: Sized {
+    fn exact_shl(self, by: u32) -> Option<Self>;
+}
+
+macro_rules! exact_shl {
+    ($($ty:ty),+) => {
+        $(impl ExactShl for $ty {
+            fn exact_shl(self, by: u32) -> Option<Self> {
+                self.checked_shl(by)
+                    .filter(|shifted| shifted.checked_shr(by) == Some(self))
+            }
+        })+
+    };
+}
+
+exact_shl!(i32, i128, u8);
+
+generic_bitop!(@checked Shl::shl, <<, safe=exact_shl);
 generic_bitop!(@checked Shr::shr, >>, safe=checked_shr);
